@@ -19,6 +19,9 @@ import tlc
 U = project.uncps
 UNKNOWN = ["nope", "Nope", "__tablename__", "metadata", "registry", "__init__", "__class__", "__dict__", "keys", "values",
            "items", "get", "columns", "c", "query", "id_", "n_"]
+# names that exist on the root model but not on the related one: unknown behind the path even after the root resolved them
+SAME_NAME = ["n", "s", "gid"]
+SAME_NAME_CTX = ["n eq 1 and a/%s eq 2", "a/%s eq 2 or s eq 'k'", "gid ne null and not (a/%s eq null)", "cs/any(x: x/n eq 1) and a/%s eq 1"]
 UNKNOWN_CTX = ["%s eq 1", "tolower(%s) eq 'a'", "1 lt %s add 1", "n in (%s, 1)", "cs/any(x: x/%s eq 1)", "a/%s eq 1", "not (%s eq null)"]
 
 
@@ -108,8 +111,8 @@ def run(ctx):
     validate(ctx, traces, info)
     # unknown fields on the SQLAlchemy backends
     from odata_query import exceptions as ex
-    for name in UNKNOWN:
-        for tpl in UNKNOWN_CTX:
+    for name, tpl in [(n, t) for n in UNKNOWN for t in UNKNOWN_CTX] + [(n, t) for n in SAME_NAME for t in SAME_NAME_CTX]:
+        if True:
             text = tpl % name
             for bname, fn in (("sa-orm", sa.orm), ("sa-legacy", lambda t: sa.orm(t, True)), ("sa-core", sa.core)):
                 if bname == "sa-core" and ("/" in text):
